@@ -33,6 +33,11 @@ CHECKS = {
    note=TB + "get_params / clone / pickle are scikit-learn/CPython behaviour (exercised, not modelled beyond 'read the attribute named like the parameter'); pickle fidelity is observed only.",
    technique="Lean 4 proof (generic round-trip theorems + decide on tables regenerated by a Python-AST translator)",
    ref="§6 C18"),
+ 'C03': dict(
+   text="Theorems about the GENERATED transcription of _check_n_components (regenerated from _util.py every run): accepted ⇔ n_components ∈ [1,d] (k = n_components) or None (k = d), otherwise ValueError; row count of components_ per estimator kind (k ≤ d; k < d without n_components only in SCML's low-rank branch, with its warning); M = LᵀL PSD and symmetric for any L; transform output length k; n_features_in_ after any history of fits = last axis of the last fit's data (points or tuples). Tie: generated function vs the real one on a grid; implementation oracle over the documented option product × generated data (fit returns self, real finite float 2-D components_ of the predicted shape, PSD M, n_features_in_, transform shape) incl. a refit on another dimensionality.",
+   note=TB + "Finiteness and real dtype of components_ come from external numeric kernels (eigh, L-BFGS, …): checked on every fit of the run, not proved.",
+   technique="Lean 4 proof about source-generated decision function + shape/state-machine theorems; differential correspondence",
+   ref="§6 C03"),
 }
 
 NOT_YET = {}
